@@ -161,6 +161,7 @@ def run_shard(spec, seed, cases, workdir, extra_args=()):
     if spec.get("mode") == "image" and os.path.exists(os.path.join(workdir, "model.txt")):
         o = open(ops).read().splitlines() if os.path.exists(ops) else []
         leaks = []
+        engine_msgs, r["oracle"] = r["oracle"], []
         for i, line in enumerate(open(os.path.join(workdir, "model.txt")).read().splitlines()):
             op = o[i] if i < len(o) else ""
             if line.startswith("bad "):
@@ -178,6 +179,7 @@ def run_shard(spec, seed, cases, workdir, extra_args=()):
             i, op, kv = leaks[0]
             r["oracle"].append(f"C19 leaked pages: ln_leaked={kv.get('ln_leaked')} bbn_leaked={kv.get('bbn_leaked')} at snapshot line {i} ({op}); "
                                f"{len(leaks)} of {len(o)} snapshots of this shard hold pages below bump that are neither in use nor tracked by the free list")
+        r["oracle"] += engine_msgs
     sp = os.path.join(workdir, "samples.txt")
     if os.path.exists(sp):
         r["samples"] = open(sp).read().splitlines()[:8]
